@@ -1,25 +1,24 @@
-"""Which properties are claimed (with the text that goes into MANIFEST.json)."""
+"""Which properties are claimed: one harness/reg/Cxx.json per claimed property
+({"text": ..., "note": ..., "technique": ...}); everything else is listed under not_applicable."""
+import glob
+import json
+import os
+
+HERE = os.path.dirname(os.path.abspath(__file__))
 NOTE = ("Trusted: Lean 4.33 kernel; axioms propext, Classical.choice, Quot.sound only (audited by #print axioms on "
         "every theorem each run; no sorry/native_decide/bv_decide/own axioms); the hand-written model is tied to /repo by "
         "the correspondence run (harness + driver JSON glue are trusted); theorems are about exact rational arithmetic, "
         "binary64 rounding is covered by tolerance/boundary comparators only; ")
 
-CLAIMED = {
-    "C01": dict(
-        text="Theorems for all dimensions/regions/counts/indices/points: n*cell=edge, centre formula, index->centre->index "
-             "identity, containment of a point in its cell (lower face inclusive, last cell closed), cell disjointness, on the "
-             "rational model of Region/Mesh; model tied to the code by exact-regime equality and tolerance-regime comparison "
-             "of every observable of Mesh/Region named by the property.",
-        note=NOTE + "NumPy floor/clip/linspace/isclose modelled by their documented contract."),
-    "C04": dict(
-        text="Theorems for every line length, mask, run position, step h and data: segment lemma (each maximal run of valid "
-             "cells is differentiated on its own; delimiters give 0; prefix/suffix independent), locality, short runs zero, "
-             "exactness of both stencils on polynomials of the admissible degree at every position of a run of any length, "
-             "linearity of the whole split-differentiate-combine pass, centred wrap-around differences and shift-equivariance on "
-             "fully valid rings; model tied to operators._split_diff_combine and Field.diff by exact equality on all masks up to "
-             "L=8/12 and on random n-d fields.",
-        note=NOTE + "np.gradient/np.convolve/np.pad(wrap) modelled by contract; ring_shift for masked rings is false of the code (known finding D17)."),
-}
+CLAIMED = {}
+for path in sorted(glob.glob(os.path.join(HERE, "reg", "C*.json"))):
+    pid = os.path.basename(path)[:-5]
+    if os.path.exists(os.path.join(HERE, pid.lower() + ".py")):
+        d = json.load(open(path))
+        if not d.get("note", "").startswith("Trusted:"):
+            d["note"] = NOTE + d.get("note", "")
+        CLAIMED[pid] = d
 
-_PENDING = "machinery for this property not built yet in this round (model + theorems + correspondence are planned, see DESIGN.md section 6); not claimed until its check exists"
+_PENDING = ("machinery for this property not built yet (model + theorems + correspondence are planned, see DESIGN.md "
+            "section 6); not claimed until its check exists")
 NOT_APPLICABLE = {f"C{i:02d}": _PENDING for i in range(1, 21) if f"C{i:02d}" not in CLAIMED}
